@@ -228,4 +228,12 @@ func VerifLocalStoreConcurrentCleanup() {
 	// the concurrent announcement is fresh (age 0 < ttl), so the lookup must
 	// return it with its latest data
 	verifLCheckGet(s, g, 0, 3, now, ttl, 3, false)
+	// the history goes on after the race: every peer seen so far announces once
+	// more (the store's two indexes must still agree, or a peer shows up twice)
+	for p := 0; p < 3; p++ {
+		if g.ann[0][p].announced {
+			verifLAnnounce(s, g, 0, p, now)
+		}
+	}
+	verifLCheckGet(s, g, 0, 3, now, ttl, 3, false)
 }
